@@ -144,7 +144,13 @@ Example C11_pv_runs :
 Proof. split; [split; [reflexivity | cbn; auto] | vm_compute; reflexivity]. Qed.
 
 (* the specifier view of `name in "<list>"` / `name not in "<list>"` (session 4): it admits exactly the final versions that satisfy
-   one of (in) / every one of (not in) the member clauses, for any variable, any number of members, members of any length ... *)
+   one of (in) / every one of (not in) the member clauses, for each of the three modelled variables (python_version,
+   python_full_version, platform_release; the code treats implementation_version like the latter), any number of members, members
+   of any length.  Members are dotted releases (tokenised as their segments); an empty member (`"3.8,"`), which the code rejects
+   with InvalidSpecifier, and members that are not plain releases (`3.8.*`, `3.8a1`) are outside the model: guard r <> [].
+   Stated on mem (vcut v) s, the denotation of the returned range object (what &, | and from_specifier work with when the atom is
+   merged); that `v in s` (contains(), which goes through the rendered text) agrees is C04_leaf under tilde_safe, compared on the
+   code by the view part of the direct oracle, and not re-proved for these results. *)
 Theorem C11_in_view name neg items : items <> [] -> Forall (fun r => r <> []) items ->
   exists s, in_view name neg items = Ret s /\ canon s /\
     forall v, final v -> mem (vcut v) s = if neg then forallb (fun r => clause_sem (in_item name true r) v) items
